@@ -58,7 +58,7 @@ func (o vc29Op) String() string {
 		return fmt.Sprintf("%s(%08b)", o.Kind, o.Mask)
 	case "setRow":
 		return fmt.Sprintf("setRow(r%d:=%04b)", o.Row, o.Mask&0xF)
-	case "clearRow", "row":
+	case "clearRow", "row", "rowCount":
 		return fmt.Sprintf("%s(r%d)", o.Kind, o.Row)
 	case "rowsWithCol":
 		return fmt.Sprintf("rowsWithCol(c%d)", o.Col)
@@ -69,6 +69,9 @@ func (o vc29Op) String() string {
 type vc29Out struct {
 	Changed bool
 	Mask    uint8
+	Row     uint64 // minRow/maxRow: row id; rowCount: count
+	Cnt     uint64 // minRow/maxRow: count
+	Sum     string // blocks: "" (no block) or the hex checksum of block 0
 }
 
 type vc29Rec struct {
@@ -114,9 +117,50 @@ func vc29Step(state, input, output interface{}) (bool, interface{}) {
 			}
 		}
 		return out.Mask == want, s
+	case "rowCount": // one row of top(ids=...): every row's count is read on its own
+		n := uint64(0)
+		for c := uint64(0); c < vc29Cols; c++ {
+			if s&vc29Bit(op.Row, c) != 0 {
+				n++
+			}
+		}
+		return out.Row == n, s
+	case "maxRow", "minRow":
+		if s == 0 {
+			return out.Row == 0 && out.Cnt == 0, s
+		}
+		want := uint64(0)
+		if (op.Kind == "maxRow" && s&vc29RowMask(1) != 0) || (op.Kind == "minRow" && s&vc29RowMask(0) == 0) {
+			want = 1
+		}
+		return out.Row == want && out.Cnt == 1, s
+	case "blocks":
+		return out.Sum == vc29Checksum(s), s
 	}
-	// top topIDs blocks snapshot flushCache maxRow minRow: no constrained result
+	// top snapshot flushCache: no constrained result (the ranked cache is refreshed every 10 s by design)
 	return true, s
+}
+
+var vc29ChecksumMemo [256]string
+var vc29ChecksumOnce sync.Once
+
+// vc29Checksum is the checksum Blocks() must report for block 0 in state s:
+// the block hash over the set positions in ascending order ("" = no block).
+func vc29Checksum(s uint8) string {
+	vc29ChecksumOnce.Do(func() {
+		for st := 1; st < 256; st++ {
+			h := newBlockHasher()
+			for r := uint64(0); r < vc29Rows; r++ {
+				for c := uint64(0); c < vc29Cols; c++ {
+					if uint8(st)&vc29Bit(r, c) != 0 {
+						h.WriteValue(r*ShardWidth + c)
+					}
+				}
+			}
+			vc29ChecksumMemo[st] = fmt.Sprintf("%x", h.Sum())
+		}
+	})
+	return vc29ChecksumMemo[s]
 }
 
 var vc29Model = porcupine.Model{
@@ -243,20 +287,32 @@ func vc29Exec(f *fragment, op vc29Op) (vc29Out, error) {
 		_, err := f.top(topOptions{N: 2})
 		return out, err
 	case "topIDs":
-		_, err := f.top(topOptions{RowIDs: []uint64{0, 1}})
+		pairs, err := f.top(topOptions{RowIDs: []uint64{0, 1}})
+		for _, p := range pairs {
+			if p.ID >= vc29Rows || p.Count > vc29Cols {
+				return out, fmt.Errorf("top(ids=[0,1]) returned %+v", pairs)
+			}
+			// counts packed per row: 3 bits each
+			out.Row |= p.Count << (3 * p.ID)
+		}
 		return out, err
 	case "blocks":
-		f.Blocks()
+		for _, b := range f.Blocks() {
+			if b.ID != 0 {
+				return out, fmt.Errorf("Blocks returned block %d", b.ID)
+			}
+			out.Sum = fmt.Sprintf("%x", b.Checksum)
+		}
 		return out, nil
 	case "snapshot":
 		return out, f.Snapshot()
 	case "flushCache":
 		return out, f.FlushCache()
 	case "maxRow":
-		f.maxRow(nil)
+		out.Row, out.Cnt = f.maxRow(nil)
 		return out, nil
 	case "minRow":
-		f.minRow(nil)
+		out.Row, out.Cnt = f.minRow(nil)
 		return out, nil
 	}
 	return out, fmt.Errorf("unknown op %q", op.Kind)
@@ -293,7 +349,7 @@ func vc29FormatHistory(recs []vc29Rec) string {
 	sort.Slice(recs, func(i, j int) bool { return recs[i].Call < recs[j].Call })
 	var b strings.Builder
 	for _, r := range recs {
-		fmt.Fprintf(&b, "  [%d,%d] client %d: %s -> changed=%v mask=%04b\n", r.Call, r.Return, r.Client, r.Op.String(), r.Out.Changed, r.Out.Mask)
+		fmt.Fprintf(&b, "  [%d,%d] client %d: %s -> changed=%v mask=%04b row/count=%d/%d sum=%s\n", r.Call, r.Return, r.Client, r.Op.String(), r.Out.Changed, r.Out.Mask, r.Out.Row, r.Out.Cnt, r.Out.Sum)
 	}
 	return b.String()
 }
@@ -386,6 +442,14 @@ func TestVerifC29_Fragment(t *testing.T) {
 					if err != nil {
 						errs[c] = fmt.Errorf("%s: %v", co.op.String(), err)
 						return
+					}
+					if co.op.Kind == "topIDs" {
+						// each row's count is looked up separately: two reads in one interval
+						for r := uint64(0); r < vc29Rows; r++ {
+							recs[co.frag][c] = append(recs[co.frag][c], vc29Rec{Client: c, Op: vc29Op{Kind: "rowCount", Row: r},
+								Out: vc29Out{Row: (out.Row >> (3 * r)) & 7}, Call: call, Return: ret})
+						}
+						continue
 					}
 					recs[co.frag][c] = append(recs[co.frag][c], vc29Rec{Client: c, Op: co.op, Out: out, Call: call, Return: ret})
 				}
